@@ -15,7 +15,8 @@ use vcommon::Run;
 pub fn known_uncompilable(t: &Ty, cfg: &Config) -> Option<&'static str> {
     // `list<T, N>` with a heap-carrying element as an *owned* import parameter: the generated
     // lowering moves out of the array by index (`let vec0 = x[0];`, error E0508).
-    if !cfg.borrowing && t.contains(&|t| matches!(t, Ty::FixedList(e, _) if e.contains_heap())) {
+    let _ = cfg;
+    if t.contains(&|t| matches!(t, Ty::FixedList(e, _) if e.contains_heap())) {
         return Some("import lowering of list<T, N> with a heap-carrying element moves out of the array by index (E0508)");
     }
     None
@@ -45,16 +46,23 @@ pub fn main(id: &str) -> ! {
 
     // ---- the space
     let mut plans: Vec<(String, Plan)> = Vec::new();
-    let per_chunk = std::env::var("E3_PER_CHUNK").ok().and_then(|s| s.parse().ok()).unwrap_or(60);
+    let per_chunk = std::env::var("E3_PER_CHUNK").ok().and_then(|s| s.parse().ok()).unwrap_or(36);
     if run.thorough() {
-        plans.push((
-            "U1 x full factorial (32 configurations)".into(),
-            Plan { tag: "t1".into(), cfgs: Config::all(), types: refabi::universe::universe("quick"), per_chunk, jobs },
-        ));
-        plans.push((
-            "U2 x pairwise-covering 8 configurations".into(),
-            Plan { tag: "t2".into(), cfgs: Config::pairwise(), types: refabi::universe::universe("u2"), per_chunk, jobs },
-        ));
+        // Stages in order of value; a stage starts only while the time budget lasts, the evidence
+        // lists the completed ones (the deepest completed bound).
+        let quick_u = refabi::universe::universe("quick");
+        let pw = Config::pairwise();
+        let rest: Vec<Config> = Config::all().into_iter().filter(|c| !pw.contains(c)).collect();
+        let u2 = refabi::universe::universe("u2");
+        let big = per_chunk.max(100);
+        plans.push(("U1 + layout pairs x 8 pairwise-covering configurations".into(),
+            Plan { tag: "t1".into(), cfgs: pw.clone(), types: quick_u.clone(), per_chunk: big, jobs }));
+        plans.push(("U2 x default configuration".into(),
+            Plan { tag: "t2".into(), cfgs: vec![Config::default_cfg()], types: u2.clone(), per_chunk: big, jobs }));
+        plans.push(("U1 + layout pairs x the other 24 configurations (full factorial)".into(),
+            Plan { tag: "t3".into(), cfgs: rest, types: quick_u, per_chunk: big, jobs }));
+        plans.push(("U2 x the other 7 pairwise-covering configurations".into(),
+            Plan { tag: "t4".into(), cfgs: pw.into_iter().filter(|c| *c != Config::default_cfg()).collect(), types: u2, per_chunk: big, jobs }));
     } else {
         // development knobs (never set by ./check): E3_UNIVERSE, E3_OFFSET, E3_LIMIT, E3_CFG
         let uni = std::env::var("E3_UNIVERSE").unwrap_or_else(|_| "quick".into());
@@ -85,7 +93,13 @@ pub fn main(id: &str) -> ! {
     let mut excluded_all = Vec::new();
     let mut outcomes_distinct: BTreeSet<String> = BTreeSet::new();
 
-    for (what, plan) in &plans {
+    let budget: f64 = std::env::var("E3_BUDGET_S").ok().and_then(|s| s.parse().ok()).unwrap_or(1200.0);
+    let mut skipped_stages: Vec<String> = Vec::new();
+    for (pi, (what, plan)) in plans.iter().enumerate() {
+        if pi > 0 && run.elapsed() > budget {
+            skipped_stages.push(what.clone());
+            continue;
+        }
         let prep = engine::prepare(plan, &known_uncompilable);
         let t_run = std::time::Instant::now();
         let results = engine::run_all(&prep.prepared, jobs);
@@ -153,10 +167,12 @@ pub fn main(id: &str) -> ! {
                         outcomes_distinct.insert(if list.is_empty() { "ok".into() } else { list[0][0].as_str().unwrap_or("?").to_string() });
                         for e in list {
                             let (pos, msg) = (e[0].as_str().unwrap_or("?"), e[1].as_str().unwrap_or("?"));
+                            // the value class of the value this position carries
+                            let vcp = if pos.ends_with("-result") { engine::val_class(ty, &c.v2) } else { vc.clone() };
                             let key = if heap_mode {
                                 format!("heap:{pos}:{dir}:{tys}:{vc}")
                             } else {
-                                format!("value:{pos}:{tys}:{vc}")
+                                format!("value:{pos}:{tys}:{vcp}")
                             };
                             run.violation(&key, &format!("{dir} of {tys} ({cfg}): {msg}"), detail.clone());
                         }
@@ -187,6 +203,7 @@ pub fn main(id: &str) -> ! {
         "exhaustive": exhaustive,
         "exhaustive_note": "every (function, direction, value) of the stated universe x configurations was executed, except the exclusions listed under `excluded`",
         "space": plan_json,
+        "stages_not_started_within_time_budget": skipped_stages,
         "pointer_width": 8,
         "values_per_type": "refabi::universe::values (boundary alphabet, <= 16 per type, every variant case, list lengths 0..3); reply = next value of V(T)",
         "directions": ["export (host -> guest parameter, guest -> host result)", "import (guest -> host parameter, host -> guest result)"],
